@@ -275,7 +275,7 @@ open Model.Share Proof.Share
 /-- **Ack batches per partition are ascending and non-overlapping on the wire.** In every accepted history, the
 acknowledgement batches of any one request for any one partition, in wire order, each end strictly before every
 later one starts, and each is `first ≤ last`. -/
-theorem share_wire_batches_ascending (h : List Ev) (s : St) (hacc : Model.Share.run {} h = some s) (rid part : Nat) :
+theorem share_wire_batches_ascending (lock : Nat) (h : List Ev) (s : St) (hacc : Model.Share.run (Model.Share.init lock) h = some s) (rid part : Nat) :
     (batchesOf rid part h).Pairwise (fun a b => a.last < b.first) ∧ ∀ b ∈ batchesOf rid part h, b.first ≤ b.last := by
   have hi := ascInv_of_run hacc rid part
   rw [batches_eq hacc, List.filter_reverse] at hi
@@ -286,11 +286,11 @@ goes on the wire, every offset of it is backed by a final decision the member ma
 earlier request carries (a decision moves to `stage 1` when a request carries it and only comes back when that
 request is answered with an error or an error callback runs); and, unless an error callback intervened, its type is
 one of the unsent decisions for that offset. -/
-theorem share_final_ack_backed (h₁ h₂ : List Ev) (m rid part first last ty t : Nat) (s : St)
-    (hacc : Model.Share.run {} (h₁ ++ Ev.wireAck m rid part first last ty t :: h₂) = some s) (hty : ty = 1 ∨ ty = 3) :
+theorem share_final_ack_backed (lock : Nat) (h₁ h₂ : List Ev) (m rid part first last ty t : Nat) (s : St)
+    (hacc : Model.Share.run (Model.Share.init lock) (h₁ ++ Ev.wireAck m rid part first last ty t :: h₂) = some s) (hty : ty = 1 ∨ ty = 3) :
     ∀ o, first ≤ o → o ≤ last →
-      ∃ p ∈ (stateAt h₁).pend, p.m = m ∧ p.part = part ∧ p.off = o ∧ p.stage = 0 ∧
-        (p.lost = false → ∃ q ∈ (stateAt h₁).pend, q.m = m ∧ q.part = part ∧ q.off = o ∧ q.stage = 0 ∧ q.st = ty) := by
+      ∃ p ∈ (stateAt lock h₁).pend, p.m = m ∧ p.part = part ∧ p.off = o ∧ p.stage = 0 ∧
+        (p.lost = false → ∃ q ∈ (stateAt lock h₁).pend, q.m = m ∧ q.part = part ∧ q.off = o ∧ q.stage = 0 ∧ q.st = ty) := by
   obtain ⟨s₁, h1, hc, _⟩ := run_split hacc
   rw [stateAt_of_run h1]
   obtain ⟨_, _, hu, htd⟩ := wireAck_check hc
@@ -308,8 +308,9 @@ theorem share_final_ack_backed (h₁ h₂ : List Ev) (m rid part first last ty t
   obtain ⟨p, hpm, hp1, hp2, hpo, hp4⟩ := hp
   refine ⟨p, hpm, hp1, hp2, hpo, hp4, ?_⟩
   intro hlost
-  have hty'' : (ty == 1 || ty == 2 || ty == 3) = true := by rcases hty with h | h <;> simp [h]
-  simp only [typeDiffers, hty'', Bool.true_and, List.any_eq_false] at htd
+  have hpre : ((ty == 1 || ty == 2 || ty == 3) && !(ty == 2 && s₁.closing.contains m)) = true := by
+    rcases hty with h | h <;> simp [h]
+  simp only [typeDiffers, hpre, Bool.true_and, List.any_eq_false] at htd
   have hq0 := htd p hpm
   cases hany : s₁.pend.any (fun q => q.m == m && q.part == part && q.off == p.off && q.stage == 0 && q.st == ty) with
   | false =>
@@ -322,53 +323,58 @@ theorem share_final_ack_backed (h₁ h₂ : List Ev) (m rid part first last ty t
 
 /-- **A record whose accept or reject was confirmed without error is never redelivered.** No acquisition of an
 offset is handed out at a (virtual) time strictly after the time its accept/reject was confirmed. -/
-theorem share_confirmed_never_reacquired (h₁ h₂ : List Ev) (m part first last dc t : Nat) (s : St)
-    (hacc : Model.Share.run {} (h₁ ++ Ev.acquired m part first last dc t :: h₂) = some s) :
-    ∀ c ∈ (stateAt h₁).confirmed, ¬ (c.1 = part ∧ first ≤ c.2.1 ∧ c.2.1 ≤ last ∧ c.2.2 < t) := by
+theorem share_confirmed_never_reacquired (lock : Nat) (h₁ h₂ : List Ev) (m part first last dc t : Nat) (s : St)
+    (hacc : Model.Share.run (Model.Share.init lock) (h₁ ++ Ev.acquired m part first last dc t :: h₂) = some s) :
+    ∀ c ∈ (stateAt lock h₁).confirmed, ¬ (c.1 = part ∧ first ≤ c.2.1 ∧ c.2.1 ≤ last ∧ c.2.2 < t) := by
   obtain ⟨s₁, h1, hc, _⟩ := run_split hacc
   rw [stateAt_of_run h1]
   exact acquired_check hc
 
 /-- **An acknowledgement is only confirmed to the member that holds the record.** If a request's accept/reject
 batch is answered without error while the newest acquisition of one of its offsets went to another member
-strictly before the request arrived, that other member has itself sent a final acknowledgement for the offset
+strictly before the request arrived and within the lock duration of it, that other member has itself sent a final acknowledgement for the offset
 since (so the record may be finished); otherwise the broker must answer with an error. -/
-theorem share_ok_only_for_holder (h₁ h₂ : List Ev) (m rid part : Nat) (s : St)
-    (hacc : Model.Share.run {} (h₁ ++ Ev.wireRes m rid part 0 :: h₂) = some s) :
-    ∀ b ∈ (stateAt h₁).batches, b.rid = rid → b.part = part → b.m = m → (b.ty = 1 ∨ b.ty = 3) →
-      ∀ o, b.first ≤ o → o ≤ b.last → ∀ a, holder (stateAt h₁) part o = some a → a.m ≠ m → a.t < b.t →
-        ∃ hb ∈ (stateAt h₁).batches, hb.m = a.m ∧ hb.part = part ∧ hb.first ≤ o ∧ o ≤ hb.last ∧
+theorem share_ok_only_for_holder (lock : Nat) (h₁ h₂ : List Ev) (m rid part : Nat) (s : St)
+    (hacc : Model.Share.run (Model.Share.init lock) (h₁ ++ Ev.wireRes m rid part 0 :: h₂) = some s) :
+    ∀ b ∈ (stateAt lock h₁).batches, b.rid = rid → b.part = part → b.m = m → (b.ty = 1 ∨ b.ty = 3) →
+      ∀ o, b.first ≤ o → o ≤ b.last → ∀ a, holder (stateAt lock h₁) part o = some a → a.m ≠ m → a.t < b.t → b.t < a.t + lock →
+        ∃ hb ∈ (stateAt lock h₁).batches, hb.m = a.m ∧ hb.part = part ∧ hb.first ≤ o ∧ o ≤ hb.last ∧
           isFinalTy hb.ty = true ∧ a.t ≤ hb.t := by
   obtain ⟨s₁, h1, hc, _⟩ := run_split hacc
   rw [stateAt_of_run h1]
-  exact wireRes_check hc
+  have hl := lock_of_run h1
+  have := wireRes_check hc
+  rw [hl] at this
+  exact this
 
 /-- **At Close unacknowledged records are released.** When `Close` returns, every record the member was handed
-without a final decision is covered by a release batch the member sent after it was handed the record, or the
+without a final decision is covered by a final batch the member sent after it was handed the record (the release, or
+an older decision for the same offset that the per-offset dedupe put in its place), or the
 member's callback reported an error for the partition while closing. -/
-theorem share_close_releases (h₁ h₂ : List Ev) (m : Nat) (s : St)
-    (hacc : Model.Share.run {} (h₁ ++ Ev.closed m :: h₂) = some s) :
-    ∀ r ∈ (stateAt h₁).openRecs, r.1 = m →
-      (∃ b ∈ batchesSince (stateAt h₁) r.2.2.2, b.m = m ∧ b.part = r.2.1 ∧ b.first ≤ r.2.2.1 ∧ r.2.2.1 ≤ b.last ∧ b.ty = 2) ∨
-      (m, r.2.1) ∈ (stateAt h₁).closeErr := by
+theorem share_close_releases (lock : Nat) (h₁ h₂ : List Ev) (m : Nat) (s : St)
+    (hacc : Model.Share.run (Model.Share.init lock) (h₁ ++ Ev.closed m :: h₂) = some s) :
+    ∀ r ∈ (stateAt lock h₁).openRecs, r.1 = m →
+      (∃ b ∈ batchesSince (stateAt lock h₁) r.2.2.2, b.m = m ∧ b.part = r.2.1 ∧ b.first ≤ r.2.2.1 ∧ r.2.2.1 ≤ b.last ∧
+        (b.ty = 1 ∨ b.ty = 2 ∨ b.ty = 3)) ∨
+      (m, r.2.1) ∈ (stateAt lock h₁).closeErr := by
   obtain ⟨s₁, h1, hc, _⟩ := run_split hacc
   rw [stateAt_of_run h1]
   exact closed_check hc
 
 /-- **FlushAcks returns only after the callbacks for all earlier acknowledgements have run.** When `FlushAcks`
 returns without error, no acknowledgement made before it was called is still waiting for its callback. -/
-theorem share_flush_after_callbacks (h₁ h₂ : List Ev) (m : Nat) (s : St)
-    (hacc : Model.Share.run {} (h₁ ++ Ev.flushEnd m true :: h₂) = some s) :
-    ∀ u ∈ (stateAt h₁).uncalled, ¬ (u.1 = m ∧ u.2.2 = true) := by
+theorem share_flush_after_callbacks (lock : Nat) (h₁ h₂ : List Ev) (m : Nat) (s : St)
+    (hacc : Model.Share.run (Model.Share.init lock) (h₁ ++ Ev.flushEnd m true :: h₂) = some s) :
+    ∀ u ∈ (stateAt lock h₁).uncalled, ¬ (u.1 = m ∧ u.2.2 = true) := by
   obtain ⟨s₁, h1, hc, _⟩ := run_split hacc
   rw [stateAt_of_run h1]
   exact flushEnd_check hc
 
 /-- **Acknowledgements are honoured.** At quiescence every final decision of a member that has closed was put on
 the wire (or an error was reported for its partition since: `lost`). -/
-theorem share_acks_sent_by_quiescence (h₁ h₂ : List Ev) (s : St)
-    (hacc : Model.Share.run {} (h₁ ++ Ev.quiesce :: h₂) = some s) :
-    ∀ p ∈ (stateAt h₁).pend, p.stage = 0 → p.lost = false → p.m ∉ (stateAt h₁).isClosed := by
+theorem share_acks_sent_by_quiescence (lock : Nat) (h₁ h₂ : List Ev) (s : St)
+    (hacc : Model.Share.run (Model.Share.init lock) (h₁ ++ Ev.quiesce :: h₂) = some s) :
+    ∀ p ∈ (stateAt lock h₁).pend, p.stage = 0 → p.lost = false → p.m ∉ (stateAt lock h₁).isClosed := by
   obtain ⟨s₁, h1, hc, _⟩ := run_split hacc
   rw [stateAt_of_run h1]
   exact quiesce_check hc
@@ -376,34 +382,34 @@ theorem share_acks_sent_by_quiescence (h₁ h₂ : List Ev) (s : St)
 /-- Non-vacuity: an accepted history. Member 0 is handed offsets 0-2 (a transaction marker at 1 is acknowledged as
 a gap by the client), accepts 0, rejects 2, flushes; both decisions are confirmed; member 1 is handed offset 3,
 never decides, closes (release on the wire). -/
-example : accepts
+example : accepts 2000
     [.acquired 0 0 0 2 1 10, .delivered 0 0 0 1, .delivered 0 0 2 1, .ack 0 0 0 1, .ack 0 0 2 3, .flushStart 0,
      .wireAck 0 1 0 0 0 1 20, .wireAck 0 1 0 1 1 0 20, .wireAck 0 1 0 2 2 3 20, .wireRes 0 1 0 0, .callback 0 0 0 25, .flushEnd 0 true,
      .acquired 1 0 3 3 1 30, .delivered 1 0 3 1, .closeStart 1, .wireAck 1 2 0 3 3 2 40, .wireRes 1 2 0 0, .closed 1,
      .closeStart 0, .closed 0, .quiesce] = true := by decide
 
 /-- The monitor refuses: a descending batch list (the pre-5958f14 shape on the wire), … -/
-example : accepts [.acquired 0 0 0 6 1 0, .delivered 0 0 0 1, .delivered 0 0 4 1, .ack 0 0 0 1, .ack 0 0 4 1,
+example : accepts 2000 [.acquired 0 0 0 6 1 0, .delivered 0 0 0 1, .delivered 0 0 4 1, .ack 0 0 0 1, .ack 0 0 4 1,
     .wireAck 0 1 0 0 0 1 5, .wireAck 0 1 0 4 4 1 5, .wireAck 0 1 0 3 3 0 5] = false := by decide
 
 /-- … the same final decision carried by a second request while the first has not failed, … -/
-example : accepts [.acquired 0 0 0 0 1 0, .delivered 0 0 0 1, .ack 0 0 0 1,
+example : accepts 2000 [.acquired 0 0 0 0 1 0, .delivered 0 0 0 1, .ack 0 0 0 1,
     .wireAck 0 1 0 0 0 1 5, .wireRes 0 1 0 0, .wireAck 0 2 0 0 0 1 6] = false := by decide
 
 /-- … a record acquired again after its accept was confirmed (the observable of the kfake defect: the late ack of
 member 0 is rejected by the broker but answered and confirmed as a success, the record comes back), … -/
-example : accepts [.acquired 0 0 7 7 1 0, .delivered 0 0 7 1, .ack 0 0 7 1,
+example : accepts 2000 [.acquired 0 0 7 7 1 0, .delivered 0 0 7 1, .ack 0 0 7 1,
     .wireAck 0 1 0 7 7 1 3000, .wireRes 0 1 0 0, .callback 0 0 0 3300, .acquired 0 0 7 7 2 5000] = false := by decide
 
 /-- … a success answer for an accept of a record that another member has held since before the request arrived, … -/
-example : accepts [.acquired 1 0 10 16 1 81, .delivered 1 0 13 1, .acquired 0 0 10 16 2 3000, .autoAccept 1 0 13,
+example : accepts 2000 [.acquired 1 0 10 16 1 81, .delivered 1 0 13 1, .acquired 0 0 10 16 2 3000, .autoAccept 1 0 13,
     .wireAck 1 22 0 13 13 1 3081, .wireRes 1 22 0 0] = false := by decide
 
 /-- … Close returning with a record neither decided nor released, FlushAcks returning before a callback ran, and a
 decision that never reaches the wire. -/
-example : accepts [.acquired 0 0 0 0 1 0, .delivered 0 0 0 1, .closeStart 0, .closed 0] = false := by decide
-example : accepts [.acquired 0 0 0 0 1 0, .delivered 0 0 0 1, .ack 0 0 0 1, .flushStart 0, .flushEnd 0 true] = false := by decide
-example : accepts [.acquired 0 0 0 0 1 0, .delivered 0 0 0 1, .ack 0 0 0 1, .closeStart 0, .closed 0, .quiesce] = false := by decide
+example : accepts 2000 [.acquired 0 0 0 0 1 0, .delivered 0 0 0 1, .closeStart 0, .closed 0] = false := by decide
+example : accepts 2000 [.acquired 0 0 0 0 1 0, .delivered 0 0 0 1, .ack 0 0 0 1, .flushStart 0, .flushEnd 0 true] = false := by decide
+example : accepts 2000 [.acquired 0 0 0 0 1 0, .delivered 0 0 0 1, .ack 0 0 0 1, .closeStart 0, .closed 0, .quiesce] = false := by decide
 
 end Protocol
 
